@@ -401,47 +401,63 @@ def p7_exact_comparisons(run: Run, w: World) -> None:
     fns = [s for s in mod.tree.body if isinstance(s, ast.FunctionDef) and s.name == "_eval_is_ge"]
     if not fns:
         raise AnalysisError("C02/P7: quantities._eval_is_ge not found")
-    f = Fn(w, QMOD, "_eval_is_ge", inline=True)
-    # quantities of inequivalent dimensions must not be ordered at all (otherwise SymPy folds Max(3 m, 2 s) to 3 m before the
-    # constructor sees the mismatch): every verdict is dominated by a dimension-equivalence guard that raises
-    guards = []
-    for t in [n for n in f.cfg.stmt_nodes() if n.kind == "test" and isinstance(n.ast, ast.If)]:
-        calls = {c.func.attr if isinstance(c.func, ast.Attribute) else (dotted(c.func) or "") for c in ast.walk(t.ast.test) if isinstance(c, ast.Call)}
-        body = t.ast.body
-        if "equivalent_dims" in calls and len(body) == 1 and isinstance(body[0], ast.Raise):
-            sl = f.slice(t, t.ast.test)
-            if {"lhs", "rhs"} <= sl.params and "dimension" in sl.attr_names:
+    for fdef in fns:
+        f = Fn(w, QMOD, "_eval_is_ge", inline=True, node=fdef)
+        # the overload's dispatch signature: which parameters are quantities (every parameter when the function is not dispatched)
+        sig = next(([dotted(a_) or "" for a_ in d.args] for d in fdef.decorator_list if isinstance(d, ast.Call) and (dotted(d.func) or "").split(".")[-1] == "dispatch"), None)
+        pnames = [p_.arg for p_ in fdef.args.posonlyargs + fdef.args.args]
+        qparams = {p_ for p_, t_ in zip(pnames, sig or [])  if t_.split(".")[-1] in ("Quantity", "SymQuantity")} if sig else set(pnames)
+        if not qparams:
+            continue
+        tag = "" if qparams == set(pnames) else ":" + ",".join(t_.split(".")[-1] for t_ in sig)
+        # quantities of inequivalent dimensions must not be ordered at all (otherwise SymPy folds Max(3 m, 2 s) to 3 m before the
+        # constructor sees the mismatch): every verdict is dominated by a dimension-equivalence guard that raises
+        guards = []
+        for t in [n for n in f.cfg.stmt_nodes() if n.kind == "test" and isinstance(n.ast, ast.If)]:
+            calls = {c.func.attr if isinstance(c.func, ast.Attribute) else (dotted(c.func) or "") for c in ast.walk(t.ast.test) if isinstance(c, ast.Call)}
+            body = t.ast.body
+            if "equivalent_dims" in calls and len(body) == 1 and isinstance(body[0], ast.Raise) and len(qparams) > 1:
+                sl = f.slice(t, t.ast.test)
+                if qparams <= sl.params and "dimension" in sl.attr_names:
+                    guards.append(t)
+            elif len(qparams) == 1 and len(body) == 1 and isinstance(body[0], ast.Raise):
+                # a quantity against a bare number: the number is dimensionless, so the guard has to refuse a dimensional quantity
+                sl = f.slice(t, t.ast.test)
+                if qparams <= sl.params and "dimension" in sl.attr_names and (calls & {"is_dimensionless", "equivalent_dims"}):
+                    guards.append(t)
+            elif "equivalent_dims" in calls and len(body) == 1 and isinstance(body[0], ast.Return) and isinstance(body[0].value, ast.Constant) and body[0].value.value is None:
+                run.ob("P7", "_eval_is_ge:guard-refuses")
+                run.violate("P7", f"{QMOD}:_eval_is_ge:guard-returns-none", f.mod, body[0],
+                            "for quantities of inequivalent dimensions _eval_is_ge returns None: to SymPy that only means 'no opinion', it then decides the relation from the "
+                            "signs of the operands - Max(1 m, -3 s) evaluates to 1 m before the constructor can see the mismatch. The guard has to raise")
                 guards.append(t)
-        elif "equivalent_dims" in calls and len(body) == 1 and isinstance(body[0], ast.Return) and isinstance(body[0].value, ast.Constant) and body[0].value.value is None:
-            run.ob("P7", "_eval_is_ge:guard-refuses")
-            run.violate("P7", f"{QMOD}:_eval_is_ge:guard-returns-none", f.mod, body[0],
-                        "for quantities of inequivalent dimensions _eval_is_ge returns None: to SymPy that only means 'no opinion', it then decides the relation from the "
-                        "signs of the operands - Max(1 m, -3 s) evaluates to 1 m before the constructor can see the mismatch. The guard has to raise")
-            guards.append(t)
-    for r in f.cfg.returns():
-        v = r.ast.value
-        if isinstance(v, ast.Constant) and v.value is None:
-            continue
-        run.ob("P7", "_eval_is_ge:dimension-guard")
-        if not f.cfg.dominated_by(r, lambda y: y in guards):
-            run.violate("P7", f"{QMOD}:_eval_is_ge:dimension-guard", f.mod, r.ast,
-                        "quantities are ordered without a dimension-equivalence guard: Max/Min/Piecewise over quantities of different dimensions are silently decided by "
-                        "their scale factors (Quantity(Max(3 m, 2 s)) is accepted)")
-    for r in f.cfg.returns():
-        if isinstance(r.ast.value, ast.Constant) and r.ast.value.value is None:
-            continue
-        run.ob("P7", "_eval_is_ge")
-        v = r.ast.value
-        v = v if not (isinstance(v, ast.Name)) else next((d.ast.value for d in f.cfg.reaching().get(r, {}).get(v.id, []) if isinstance(d.ast, ast.Assign)), v)
-        ok = isinstance(v, ast.Compare) and len(v.ops) == 1 and isinstance(v.ops[0], ast.GtE)
-        if ok:
-            sl, sr = f.slice(r, v.left), f.slice(r, v.comparators[0])
-            ok = sl.params == {"lhs"} and sr.params == {"rhs"} and not numeric_consts(sl) and not numeric_consts(sr) \
-                and all(c.split(".")[-1] in ("scale_factor", "float") for c in sl.calls | sr.calls) and ("scale_factor" in sl.calls | sl.attr_names) and ("scale_factor" in sr.calls | sr.attr_names)
-        if not ok:
-            run.violate("P7", f"{QMOD}:_eval_is_ge", f.mod, r.ast,
-                        f"`lhs >= rhs` on quantities is decided by `{norm(r.ast.value, 80)}`; anything but the exact comparison scale_factor(lhs) >= scale_factor(rhs) makes the "
-                        f"branch of a piecewise law depend on the magnitude / unit prefix of the arguments")
+        for r in f.cfg.returns():
+            v = r.ast.value
+            if isinstance(v, ast.Constant) and v.value is None:
+                continue
+            run.ob("P7", "_eval_is_ge:dimension-guard")
+            if not f.cfg.dominated_by(r, lambda y: y in guards):
+                run.violate("P7", f"{QMOD}:_eval_is_ge:dimension-guard{tag}", f.mod, r.ast,
+                            ("quantities are ordered without a dimension-equivalence guard: Max/Min/Piecewise over quantities of different dimensions are silently decided by "
+                             "their scale factors (Quantity(Max(3 m, 2 s)) is accepted)") if len(qparams) > 1 else
+                            (f"the overload {tag[1:]} orders a quantity against a bare number by its scale factor without refusing a dimensional quantity: SymPy folds "
+                             f"Max(3 m, 5) to a dimensionless 5 before the collector can see the mismatch, and Max(3 m, 2.5, 1 s) is bridged by the number"))
+        for r in f.cfg.returns():
+            if isinstance(r.ast.value, ast.Constant) and r.ast.value.value is None:
+                continue
+            run.ob("P7", "_eval_is_ge")
+            v = r.ast.value
+            v = v if not (isinstance(v, ast.Name)) else next((d.ast.value for d in f.cfg.reaching().get(r, {}).get(v.id, []) if isinstance(d.ast, ast.Assign)), v)
+            ok = isinstance(v, ast.Compare) and len(v.ops) == 1 and isinstance(v.ops[0], ast.GtE)
+            if ok:
+                sl, sr = f.slice(r, v.left), f.slice(r, v.comparators[0])
+                ok = sl.params == {"lhs"} and sr.params == {"rhs"} and not numeric_consts(sl) and not numeric_consts(sr) \
+                    and all(c.split(".")[-1] in ("scale_factor", "float") for c in sl.calls | sr.calls) \
+                    and ("lhs" not in qparams or "scale_factor" in sl.calls | sl.attr_names) and ("rhs" not in qparams or "scale_factor" in sr.calls | sr.attr_names)
+            if not ok:
+                run.violate("P7", f"{QMOD}:_eval_is_ge", f.mod, r.ast,
+                            f"`lhs >= rhs` on quantities is decided by `{norm(r.ast.value, 80)}`; anything but the exact comparison scale_factor(lhs) >= scale_factor(rhs) makes the "
+                            f"branch of a piecewise law depend on the magnitude / unit prefix of the arguments")
     g = Fn(w, QMOD, "Quantity._eval_is_positive")
     for r in g.cfg.returns():
         conds_try = [x for x in ast.walk(g.fn) if isinstance(x, ast.Try)]
